@@ -566,10 +566,17 @@ func typeName(dt datatype.DataType) string {
 }
 
 // decode returns a canonical text of the value decoded by the reference codec under dt.
-func decode(dt datatype.DataType, b []byte, v primitive.ProtocolVersion) (string, error) {
+func decode(dt datatype.DataType, b []byte, v primitive.ProtocolVersion) (text string, err error) {
 	if b == nil {
 		return "null", nil
 	}
+	defer func() {
+		// the reference codec panics on some malformed values (a negative collection length): a value that does not
+		// decode, not a fault of the driver
+		if r := recover(); r != nil {
+			text, err = "", fmt.Errorf("reference codec panicked on %d bytes under %s: %v", len(b), typeName(dt), r)
+		}
+	}()
 	codec, err := datacodec.NewCodec(dt)
 	if err != nil {
 		return "", err
@@ -610,6 +617,14 @@ func decode(dt datatype.DataType, b []byte, v primitive.ProtocolVersion) (string
 		}
 		return strconv.FormatInt(i, 10), nil
 	case primitive.DataTypeCodeSet, primitive.DataTypeCodeList:
+		// every element costs at least its 4-byte length: a count beyond that is no collection (and the reference codec
+		// would allocate it before noticing)
+		if len(b) < 4 {
+			return "", fmt.Errorf("collection of %d bytes", len(b))
+		}
+		if n := int32(uint32(b[0])<<24 | uint32(b[1])<<16 | uint32(b[2])<<8 | uint32(b[3])); n < 0 || int(n) > (len(b)-4)/4 {
+			return "", fmt.Errorf("collection announces %d elements in %d bytes", n, len(b))
+		}
 		var l []*string
 		if _, err := codec.Decode(b, &l, v); err != nil {
 			return "", err
@@ -626,6 +641,9 @@ func decode(dt datatype.DataType, b []byte, v primitive.ProtocolVersion) (string
 			sort.Strings(out)
 		}
 		return "{" + strings.Join(out, ",") + "}", nil
+	}
+	if len(b) > 1<<20 {
+		return "", fmt.Errorf("value of %d bytes under %s", len(b), typeName(dt))
 	}
 	var dest interface{}
 	if _, err := codec.Decode(b, &dest, v); err != nil {
@@ -1119,13 +1137,17 @@ func (r *runner) runPipelined(sels []*selRow) {
 		r.res.infra("pipelined selects: " + err.Error())
 		return
 	}
+	wait := 20 * time.Second
 	for i, s := range sels {
-		rv := r.cl.WaitStream(streams[i], from, 20*time.Second)
-		var err error
+		rv := r.cl.WaitStream(streams[i], from, wait)
 		if rv == nil {
-			err = fmt.Errorf("no answer on stream %d", streams[i])
+			// (after a first missing answer the connection has probably lost its framing: do not wait long for the rest)
+			wait = 500 * time.Millisecond
+			r.res.note("reply", sig(s.feats, "mode=query-pipelined"), false,
+				r.sample(s, "query-pipelined", fmt.Sprintf("no answer on stream %d to a select sent together with %d others in one write", streams[i], len(sels)-1), "nothing", "rows"))
+			continue
 		}
-		q := r.rows(s, "query-pipelined", rv, err)
+		q := r.rows(s, "query-pipelined", rv, nil)
 		r.res.count("selects_query_pipelined", 1)
 		if q != nil {
 			r.checkValues(s, "query-pipelined", q)
